@@ -4,6 +4,9 @@
 
 #include <orc/orcutils.h>
 #include <orc/orcdebug.h>
+#ifdef ORC_VERIF_HOOKS
+#include <orc/orcverif.h>
+#endif
 
 #if (!defined(_MSC_VER) || defined(__clang__)) && !defined(__STDC_NO_ATOMICS__)
 // For MSVC, we need the Win32-based version, as C11 atomics
@@ -74,16 +77,28 @@ static inline void orc_once_leave(OrcOnce *once, void *value) {
 static inline orc_bool orc_once_enter(OrcOnce *once, void **value) {
   int inited;
 
+#ifdef ORC_VERIF_HOOKS
+  ORC_VERIF_POINT (ORC_VERIF_PT_ONCE_LOAD_FAST);
+#endif
   inited = atomic_load_explicit (&once->inited, memory_order_acquire);
   if (ORC_LIKELY(inited)) {
+#ifdef ORC_VERIF_HOOKS
+    ORC_VERIF_POINT (ORC_VERIF_PT_ONCE_READ_VALUE);
+#endif
     *value = once->value;
     return TRUE;
   }
 
   orc_once_mutex_lock ();
 
+#ifdef ORC_VERIF_HOOKS
+  ORC_VERIF_POINT (ORC_VERIF_PT_ONCE_LOAD_SLOW);
+#endif
   inited = atomic_load_explicit (&once->inited, memory_order_acquire);
   if (ORC_UNLIKELY(inited)) {
+#ifdef ORC_VERIF_HOOKS
+    ORC_VERIF_POINT (ORC_VERIF_PT_ONCE_READ_VALUE);
+#endif
     *value = once->value;
     orc_once_mutex_unlock ();
     return TRUE;
@@ -94,7 +109,13 @@ static inline orc_bool orc_once_enter(OrcOnce *once, void **value) {
 
 static inline void orc_once_leave(OrcOnce *once, void *value) {
   int inited = TRUE;
+#ifdef ORC_VERIF_HOOKS
+  ORC_VERIF_POINT (ORC_VERIF_PT_ONCE_WRITE_VALUE);
+#endif
   once->value = value;
+#ifdef ORC_VERIF_HOOKS
+  ORC_VERIF_POINT (ORC_VERIF_PT_ONCE_STORE_FLAG);
+#endif
   atomic_store_explicit (&once->inited, inited, memory_order_release);
   orc_once_mutex_unlock ();
 }
